@@ -29,7 +29,7 @@ RULE = ("stream ranges: (i) every list of <= 2 parts over 0..4 (single values an
         "compared with the model (lists transported as maximal +1 runs, an injective encoding).  non-trivial = the denoted set "
         "straddles 65536 (hash order of a Python set differs from numeric order), or two parts overlap/duplicate, or the text "
         "is not in ascending order; distinct by text.  aux: the same calls under PYTHONHASHSEED 1, 2 and random in subprocesses "
-        "must give the observations of the pool (seed 0).")
+        "must give the observations of the pool (seed 0). One random case in six is repeated with reverse=True (only as_list() is turned round; the stored members and every other reader are unaffected).")
 EXHAUSTIVE = {"quick": True, "thorough": True}   # part (i) of RULE is a full enumeration at the stated bound
 TRUSTED = [
     "Coq 8.16.1 kernel incl. vm_compute (no native_compute); Coq.Sorting.Mergesort from the standard library",
@@ -186,6 +186,8 @@ def gen(rng, tier, escalate):
         text = _render(parts, rng, plain=(i % 5 == 0))
         nops = rng.choice([0, 2, 5, 10, 25]) if i % 3 else 25
         cases.append({"kind": "random", "text": text, "ops": _ops(rng, _members(parts), nops), "parts": parts})
+        if i % 6 == 1:
+            cases.append({"kind": "reverse", "text": text, "ops": _ops(rng, _members(parts), rng.choice([3, 8, 15])), "parts": parts, "reverse": True})
     # compress / re-expand: the compressed string of a random range is fed back as a text
     for i in range(120 * k):
         vals = sorted(_members(_parts(rng)))
@@ -244,7 +246,7 @@ def _data(r):
 def observe(case):
     from ciscoconfparse2.ccp_util import CiscoRange
     try:
-        r = CiscoRange(case["text"], result_type=int)
+        r = CiscoRange(case["text"], result_type=int, reverse=bool(case.get("reverse")))
         ctor = _data(r)
     except BaseException:
         return {"ctor": None, "steps": []}
@@ -257,7 +259,9 @@ def observe(case):
             elif k == "iter":
                 out = _enc_list(iter(r))
             elif k == "list":
-                out = _enc_list(r.as_list())
+                lst = r.as_list()
+                # reverse=True only turns the returned list round (descending); the stored members and every other reader are as without it
+                out = _enc_list(list(lst)[::-1] if case.get("reverse") and isinstance(lst, list) else lst)
             elif k == "set":
                 out = _enc_list(sorted(r.as_set()))
             elif k == "str":
